@@ -20,6 +20,12 @@ def step (toks : List String) : String :=
     | some ya, some yt, some pa, some pt, some su, some now, some ma, some rate, some period =>
       toString (inflationMint ya yt pa pt su now ma rate period)
     | _, _, _, _, _, _, _, _, _ => "bad-op"
+  | ["infl-block", ya, yt, pa, pt, su, now, ma, rate, period, first] =>
+    match int? ya, int? yt, int? pa, int? pt, int? su, int? now, Dec.fromStr ma, Dec.fromStr rate, int? period with
+    | some ya, some yt, some pa, some pt, some su, some now, some ma, some rate, some period =>
+      let s := inflBlock ⟨ma, rate, period⟩ ⟨su, ya, yt, pa, pt⟩ now (first == "1")
+      s!"{s.supply} {s.yAmt} {s.yTime} {s.pAmt} {s.pTime}"
+    | _, _, _, _, _, _, _, _, _ => "bad-op"
   | ["ubi-upsert", hc, a, p, recs] =>
     match nat? hc, nat? a, nat? p, parseRecs recs with
     | some hc, some a, some p, some recs =>
